@@ -489,6 +489,23 @@ fam(Family("far-rest-destructure", {
 }, quick=1, thorough=1, ctx_quick=["far", "far-tail", "far-temps", "fn-def"], ctx_thorough=["far", "far-tail", "far-temps", "fn-def"],
     keep_far="far-rest-destructure"))
 
+# ---- wide-destructure: positional patterns whose length crosses 256 (the index stops fitting the 8-bit immediate of
+# get-index and a constant index is used instead): every position must receive its own element
+def _wide(tier):
+    out = []
+    for n in (255, 256, 257, 258, 300) if tier == "quick" else (254, 255, 256, 257, 258, 259, 300, 513):
+        names = " ".join("p%d" % i for i in range(n))
+        vals = " ".join(str(1000 + i) for i in range(n))
+        pick = "(tuple p0 p1 %s)" % " ".join("p%d" % i for i in range(max(2, n - 5), n))
+        out.append("(do (def [%s] [%s]) %s)" % (names, vals, pick))
+        out.append("(do (var [%s] @[%s]) %s)" % (names, vals, pick))
+        out.append("(let [[%s] [%s]] %s)" % (names, vals, pick))
+        out.append("((fn [[%s]] %s) [%s])" % (names, pick, vals))
+    return out
+
+
+product_family("wide-destructure", _wide, ctx_quick=["top-def", "fn-def", "fn-tail"], ctx_thorough=["top-def", "fn-def", "fn-tail", "closure"])
+
 # ---- iflet-else-position: an error raised by macro-generated code inside the else branch of if-let is attributed
 # to the enclosing form (the branch is pre-expanded with macex, which drops the macro form's position).  See NOTES.md.
 fam(Family("iflet-else-position", {
